@@ -140,7 +140,7 @@ func protoFor(pub fstrace.Publication) string {
 		return "file.ReplicaClient.WriteLTXFile"
 	case strings.HasSuffix(pub.Target.Str, "-txid"):
 		return "WriteTXIDFile"
-	case strings.HasSuffix(pub.Target.Str, "restored3.db"):
+	case strings.HasSuffix(pub.Target.Str, "restored3.db") || strings.Contains(pub.Target.Str, "/out/v3-"):
 		return "Replica.RestoreV3"
 	case pub.Target.Tree == 2:
 		return "Replica.Restore"
@@ -291,7 +291,19 @@ func (g *engine) runOne(sc Scenario) bool {
 			continue
 		}
 		want := fstrace.Normalize(p.Steps)
-		if !reflect.DeepEqual(want, pub.Seq) {
+		obs := pub.Seq
+		if strings.Contains(strings.Join(p.Steps, ","), "extWrite") {
+			// an opaque flushing writer (SQLite checkpoint) may run zero, one or several times (one per WAL index)
+			var c []string
+			for _, x := range obs {
+				c = append(c, x)
+				if n := len(c); n >= 4 && c[n-1] == "fsync" && c[n-2] == "write" && c[n-3] == "fsync" && c[n-4] == "write" {
+					c = c[:n-2]
+				}
+			}
+			obs = c
+		}
+		if !reflect.DeepEqual(want, obs) && !reflect.DeepEqual(fstrace.NormalizeAlt(p.Steps), obs) {
 			g.res.DisagreementsChecked++
 			g.res.AddFinding("disagreement", "C11/static-vs-observed/"+name,
 				fmt.Sprintf("extracted sequence of %s is %v but the observed calls publishing %s were %v", name, want, pub.Target.Str, pub.Seq),
@@ -379,7 +391,7 @@ func main() {
 	}
 	o := hx.ParseFlags("C11")
 	res := hx.NewResult(o, "c11: strace'd litestream scenarios judged by Lean flushOK + Go rule oracle; static publish protocols")
-	res.Rule = "scenarios {basic, compact(+snapshot, retention), restore, follow(+txid sidecar), behind (baseline fetch, F8), reopen, restorev3 (legacy layout), pinned (checkpoints that cannot restart the WAL because of an application reader: explicit PASSIVE/FULL/RESTART/TRUNCATE and the threshold PASSIVE inside Sync), ckptbusy (checkpoints under concurrent commits), restoreside (plain and follow-mode restore x {no sidecar, stale older sidecar, stale sidecar naming exactly the final TXID, stale -txid.tmp}; a follow-mode restore acknowledges when follow() opens the published output O_RDWR and again when Restore returns), republish (WriteLTXFile onto names that already exist in the file replica: upload retry of an L0 file, Snapshot twice at the same position, snapshot by a restarted idle process, repeated compaction), chunked (WAL backlog larger than MaxSyncWALBytes in {one frame, 16 KiB, 64 KiB}: bounded sync chunks, also with a checkpoint inside the same sync); a 16/64 KiB sync budget is mixed into the other scenarios by seed} x seeded sizes, each run once under strace -f -y; the full system-call trace restricted to the meta/replica/output trees is one case (non-trivial = at least one event; distinct = canonical event line); each regenerated static protocol is one case; crash points around every rename/unlink/ack are replayed in the model"
+	res.Rule = "scenarios {basic, compact(+snapshot, retention), restore, follow(+txid sidecar), behind (baseline fetch, F8), reopen, restorev3 (legacy v0.3.x layouts through Restore and RestoreV3: snapshot only, committed WAL, header-only WAL segment, WAL ending mid-transaction, two WAL indexes, last index without commit, timestamp cutting the segment list), pinned (checkpoints that cannot restart the WAL because of an application reader: explicit PASSIVE/FULL/RESTART/TRUNCATE and the threshold PASSIVE inside Sync), ckptbusy (checkpoints under concurrent commits), restoreside (plain and follow-mode restore x {no sidecar, stale older sidecar, stale sidecar naming exactly the final TXID, stale -txid.tmp}; a follow-mode restore acknowledges when follow() opens the published output O_RDWR and again when Restore returns), republish (WriteLTXFile onto names that already exist in the file replica: upload retry of an L0 file, Snapshot twice at the same position, snapshot by a restarted idle process, repeated compaction), chunked (WAL backlog larger than MaxSyncWALBytes in {one frame, 16 KiB, 64 KiB}: bounded sync chunks, also with a checkpoint inside the same sync); a 16/64 KiB sync budget is mixed into the other scenarios by seed} x seeded sizes, each run once under strace -f -y; the full system-call trace restricted to the meta/replica/output trees is one case (non-trivial = at least one event; distinct = canonical event line); each regenerated static protocol is one case; crash points around every rename/unlink/ack are replayed in the model"
 	drv, err := hx.StartDriver(o.Driver)
 	if err != nil {
 		hx.Fatal(err)
